@@ -341,6 +341,16 @@ def run_c06(rep, tier):
     for o in obs:
         if 'res' in o and o['exp']['mask_req'] < 0:
             o['_cost'] = o['_cost'] * 8
+    # sequences: a requested mask applies to every symbol of the sequence (also to the single-symbol shortcut)
+    r = gen.rng(common.seed(), 'C06', 'seq')
+    nseq = 0
+    for m in range(8):
+        for c in (call('make_sequence', gen.latin1(r, 12), version=1 + m % 2, mask=m),
+                  call('make_sequence', gen.digits(r, 30), symbol_count=2, mask=m),
+                  call('make_sequence', gen.alnum(r, 90), version=1, mask=m, error='Q')):
+            obs += symobs.observe_sequence_symbols(c, props=['C06'])
+            nseq += 1
+    rep.evaluations += nseq
     note_refusals(rep, obs)
 
     def key(o, v):
